@@ -605,6 +605,9 @@ func (in *interp) callBuiltin(caller *frame, callpos token.Pos, fn *ssa.Builtin,
 			if x == nil {
 				return in.mkInt(0)
 			}
+			if in.race != nil {
+				in.race.read(in.sch.cur, &x.cell, false)
+			}
 			return in.mkInt(len(x.keys))
 		case *channel:
 			if x == nil {
@@ -668,6 +671,9 @@ func (in *interp) rangeIter(x value, t types.Type) iter {
 			return &mapIter{in: in}
 		}
 		// snapshot, as Go semantics allow
+		if in.race != nil {
+			in.race.read(in.sch.cur, &x.cell, false)
+		}
 		return &mapIter{keys: append([]value{}, x.keys...), vals: append([]value{}, x.vals...), in: in}
 	case string:
 		return &stringIter{Reader: strings.NewReader(x), in: in}
